@@ -119,6 +119,8 @@ func (mockTransport) RoundTrip(req *http.Request) (*http.Response, error) {
 		return mk(200, "application/json", `{"name": "Bob", "age": 23, "items": ["a", "b"], "ok": true}`), nil
 	case "nested":
 		return mk(200, "application/json", `{"results": {"color": {"value": "red"}}, "list": [{"x": 1}, {"x": 2}], "__default__": "dflt"}`), nil
+	case "casevariant":
+		return mk(200, "application/json", `{"a": 1, "A": 2, "Name": "upper", "name": "lower"}`), nil
 	case "array":
 		return mk(200, "application/json", `[1, 2, {"three": 3}]`), nil
 	case "text":
